@@ -85,6 +85,20 @@ def parsers : List (Nat × P Pkg) :=
     (Cursor.tokCurUpdate, lift Cursor.CurUpdate.dec .curUpdate),
     (Cursor.tokCurDelete, lift Cursor.CurDelete.dec .curDelete) ]
 
+/-- the Go package type (and the `wide` flag `LookupPackage` passes) each entry of `parsers`
+transcribes, in the order of `parsers`; compared with the regenerated switch of `LookupPackage`
+(`Gen/Lookup.lean`) in `Props/C07/Lookup.lean` -/
+def parsersMeta : List (Nat × String × Bool) :=
+  [ (0xFD, "DonePackage", false), (0xFE, "DoneProcPackage", false), (0xFF, "DoneInProcPackage", false),
+    (0xE5, "EEDPackage", false), (0xAA, "ErrorPackage", false), (0xAD, "LoginAckPackage", false),
+    (0x65, "MsgPackage", false), (0xE3, "EnvChangePackage", false), (0xE2, "CapabilityPackage", false),
+    (0x21, "LanguagePackage", false), (0x79, "ReturnStatusPackage", false), (0x71, "LogoutPackage", false),
+    (0xE7, "DynamicPackage", false), (0x62, "DynamicPackage", true),
+    (0x86, "CurDeclarePackage", false), (0x10, "CurDeclarePackage", true),
+    (0x83, "CurInfoPackage", false), (0x88, "CurInfoPackage", true),
+    (0x84, "CurOpenPackage", false), (0x82, "CurFetchPackage", false),
+    (0x85, "CurUpdatePackage", false), (0x81, "CurDeletePackage", false) ]
+
 def findParser (t : Nat) : List (Nat × P Pkg) → P Pkg
   | [] => tokenless
   | (k, p) :: rest => if k = t then p else findParser t rest
